@@ -192,9 +192,9 @@ Proof.
     + cbn [snd]. set (s1 := set_read _ _ _ _ _).
       assert (H1 : tcp_closed s1) by (subst s1; closed_simpl; exact Hs).
       destruct (hdr_after p); rewrite ?andthen_spec; cbn [fst snd].
-      * destruct (apply_aops_closed e (on_headers p {| q_method := m; q_raw := target; q_path := path; q_query := query; q_headers := h |}) s1 H1) as [H2 E2].
+      * destruct (apply_aops_closed e (on_headers p {| q_method := m; q_raw := target; q_path := path; q_query := query; q_headers := h |} (avail s1)) s1 H1) as [H2 E2].
         split; [exact H2|]. apply no_tx_app; [exact E2|reflexivity].
-      * destruct (apply_aops_closed e (on_headers p {| q_method := m; q_raw := target; q_path := path; q_query := query; q_headers := h |}) s1 H1) as [H2 E2].
+      * destruct (apply_aops_closed e (on_headers p {| q_method := m; q_raw := target; q_path := path; q_query := query; q_headers := h |} (avail s1)) s1 H1) as [H2 E2].
         split; [exact H2|]. apply (no_tx_app [_; _]); [reflexivity|exact E2].
     + apply write_error_closed; exact Hs.
     + split; [exact Hs|reflexivity].
@@ -642,7 +642,7 @@ Proof.
     + right. cbn [fst snd]. set (s1 := set_read _ _ _ _ _).
       assert (H1 : parsed s1) by (subst s1; parsed_simpl; discriminate).
       set (rq := {| q_method := m; q_raw := target; q_path := path; q_query := query; q_headers := h |}).
-      destruct (apply_aops_parsed e (on_headers p rq) s1 H1) as [H2 E2].
+      destruct (apply_aops_parsed e (on_headers p rq (avail s1)) s1 H1) as [H2 E2].
       destruct (hdr_after p); rewrite ?andthen_spec; cbn [fst snd].
       * split; [|split; [exact H2|reflexivity]].
         rewrite hdr_count_app, (no_hdr_count _ E2). reflexivity.
